@@ -41,13 +41,23 @@ type Opts struct {
 	Range   *Range   `json:"range"`
 	Options []string `json:"options"`
 	Str     bool     `json:"str"`
+	Bracket bool     `json:"bracket"` // render the options as options=[a,b] instead of options=a|b
+}
+
+// TagSpec is one struct tag of a field that carries several (json / form / path / header / key).
+type TagSpec struct {
+	Key string  `json:"key"`
+	O   *Opts   `json:"o"`
+	Raw *string `json:"raw"` // the tag value as text (spacing, bracket notation, escapes chosen by the generator)
 }
 
 type Field struct {
-	Key  string `json:"key"`
-	T    *Type  `json:"t"`
-	O    *Opts  `json:"o"`
-	Anon bool   `json:"anon"` // embedded struct / *struct; O is nil or {opt:true}
+	Key  string             `json:"key"`
+	T    *Type              `json:"t"`
+	O    *Opts              `json:"o"`
+	Anon bool               `json:"anon"` // embedded struct / *struct; O is nil or {opt:true}
+	Raw  *string            `json:"raw"`  // single-tag fields: the tag value as text
+	Tags map[string]TagSpec `json:"tags"` // several tags on one field; Key / O / Raw above are then unused
 }
 
 type Type struct {
@@ -72,6 +82,17 @@ type KV struct {
 	V Doc    `json:"v"`
 }
 
+// ParseReq is one HTTP request for httpx.Parse: path variables, query (or posted form)
+// parameters, headers and a body at once.
+type ParseReq struct {
+	Path     *Doc    `json:"path"`
+	Form     *Doc    `json:"form"`
+	Header   *Doc    `json:"header"`
+	Body     *string `json:"body"`
+	Ctype    *string `json:"ctype"`    // Content-Type of the body (default application/json)
+	PostForm bool    `json:"postform"` // send the form parameters as an x-www-form-urlencoded body
+}
+
 type Repeat struct {
 	Key string `json:"key"`
 	Val string `json:"val"`
@@ -89,6 +110,9 @@ type Case struct {
 	Direct bool    `json:"direct"` // call ParseJsonBody / ParseForm / ParsePath / ParseHeaders instead of Parse
 	Pad    int     `json:"pad"`    // json body: insert that many spaces after the first byte
 	Repeat *Repeat `json:"repeat"` // form: add n more values for a key
+	Req       *ParseReq `json:"req"`       // mode "parse"
+	Validator *string   `json:"validator"` // httpx.SetValidator for this call: "accept" / "reject"
+	Ctype     *string   `json:"ctype"`     // httpx-json: Content-Type (default application/json)
 	// sequences
 	Steps  []Case `json:"steps"`
 	Procs1 bool   `json:"procs1"` // run the sequence under GOMAXPROCS(1)
@@ -100,6 +124,7 @@ type Out struct {
 	Err     string `json:"err,omitempty"`
 	Val     any    `json:"val,omitempty"`
 	Tag     string `json:"tag,omitempty"`
+	Called  bool   `json:"called"`         // the installed request validator ran
 	Fail    string `json:"fail,omitempty"` // executor problem (bad case), not an observation
 	Steps   []Out  `json:"steps,omitempty"`
 }
@@ -134,9 +159,9 @@ func renderRange(r *Range) string {
 	return b.String()
 }
 
-func renderTag(tagKey string, f Field) string {
-	segs := []string{f.Key}
-	if o := f.O; o != nil {
+func renderTagValue(key string, o *Opts) string {
+	segs := []string{key}
+	if o != nil {
 		if o.Opt {
 			if o.Dep != nil {
 				if o.Neg {
@@ -155,13 +180,43 @@ func renderTag(tagKey string, f Field) string {
 			segs = append(segs, "range="+renderRange(o.Range))
 		}
 		if len(o.Options) > 0 {
-			segs = append(segs, "options="+strings.Join(o.Options, "|"))
+			if o.Bracket {
+				segs = append(segs, "options=["+strings.Join(o.Options, ",")+"]")
+			} else {
+				segs = append(segs, "options="+strings.Join(o.Options, "|"))
+			}
 		}
 		if o.Str {
 			segs = append(segs, "string")
 		}
 	}
-	return tagKey + `:"` + strings.Join(segs, ",") + `"`
+	return strings.Join(segs, ",")
+}
+
+func oneTag(tagKey, key string, o *Opts, raw *string) string {
+	v := renderTagValue(key, o)
+	if raw != nil {
+		v = *raw
+	}
+	return tagKey + ":" + strconv.Quote(v)
+}
+
+// renderTag: the whole struct tag of a field (one tag for single-kind types, several otherwise)
+func renderTag(tagKey string, f Field) string {
+	if f.Tags == nil {
+		return oneTag(tagKey, f.Key, f.O, f.Raw)
+	}
+	keys := make([]string, 0, len(f.Tags))
+	for k := range f.Tags {
+		keys = append(keys, k)
+	}
+	sort.Strings(keys)
+	parts := make([]string, 0, len(keys))
+	for _, k := range keys {
+		ts := f.Tags[k]
+		parts = append(parts, oneTag(k, ts.Key, ts.O, ts.Raw))
+	}
+	return strings.Join(parts, " ")
 }
 
 func build(tagKey string, t *Type) (reflect.Type, error) {
@@ -196,7 +251,9 @@ func build(tagKey string, t *Type) (reflect.Type, error) {
 			}
 			if f.Anon {
 				tag := ""
-				if f.O != nil && f.O.Opt {
+				if f.Tags != nil {
+					tag = renderTag(tagKey, f)
+				} else if f.O != nil && f.O.Opt {
 					tag = tagKey + `:",optional"`
 				}
 				fs = append(fs, reflect.StructField{
@@ -420,18 +477,68 @@ func stringMap(d *Doc) (map[string][]string, []string, error) {
 
 func tagKeyOf(mode string) string {
 	switch mode {
-	case "json", "httpx-json":
+	case "json", "httpx-json", "yaml", "toml", "jsonmap", "jsonreader", "ojson":
 		return "json"
-	case "key":
+	case "key", "okey":
 		return "key"
-	case "form", "httpx-form":
+	case "form", "httpx-form", "dform":
 		return "form"
 	case "path", "httpx-path":
 		return "path"
 	case "header", "httpx-header":
 		return "header"
+	case "parse":
+		return "json" // types handed to httpx.Parse carry their tags per field
 	}
 	return ""
+}
+
+// hook is the request validator installed with httpx.SetValidator.
+type hook struct {
+	accept bool
+	called bool
+	seen   any
+}
+
+func (h *hook) Validate(r *http.Request, data any) error {
+	h.called = true
+	h.seen = dump(reflect.ValueOf(data).Elem())
+	if h.accept {
+		return nil
+	}
+	return fmt.Errorf("rejected by the request validator")
+}
+
+func addHeaders(r *http.Request, d *Doc) error {
+	sm, order, err := stringMap(d)
+	if err != nil {
+		return err
+	}
+	for _, k := range order {
+		for _, v := range sm[k] {
+			r.Header.Add(k, v)
+		}
+	}
+	return nil
+}
+
+func queryOf(d *Doc, rep *Repeat) (url.Values, error) {
+	sm, order, err := stringMap(d)
+	if err != nil {
+		return nil, err
+	}
+	q := url.Values{}
+	for _, k := range order {
+		for _, v := range sm[k] {
+			q.Add(k, v)
+		}
+	}
+	if rep != nil {
+		for i := 0; i < rep.N; i++ {
+			q.Add(rep.Key, rep.Val)
+		}
+	}
+	return q, nil
 }
 
 func runCase(c Case) (out Out) {
@@ -474,14 +581,26 @@ func runCase(c Case) (out Out) {
 
 	var call func() error
 	switch c.Mode {
-	case "json":
+	case "json", "yaml", "toml", "jsonreader", "ojson":
 		if c.Raw == nil {
-			out.Fail = "json mode needs raw"
+			out.Fail = c.Mode + " mode needs raw"
 			return
 		}
 		raw := []byte(*c.Raw)
-		call = func() error { return mapping.UnmarshalJsonBytes(raw, target.Interface()) }
-	case "key":
+		switch c.Mode {
+		case "json":
+			call = func() error { return mapping.UnmarshalJsonBytes(raw, target.Interface()) }
+		case "ojson":
+			// a JSON document read with opaque keys
+			call = func() error { return mapping.UnmarshalJsonBytes(raw, target.Interface(), mapping.WithOpaqueKeys()) }
+		case "jsonreader":
+			call = func() error { return mapping.UnmarshalJsonReader(bytes.NewReader(raw), target.Interface()) }
+		case "yaml":
+			call = func() error { return mapping.UnmarshalYamlBytes(raw, target.Interface()) }
+		case "toml":
+			call = func() error { return mapping.UnmarshalTomlReader(bytes.NewReader(raw), target.Interface()) }
+		}
+	case "key", "okey", "jsonmap":
 		x, err := toAny(c.Doc)
 		if err != nil {
 			out.Fail = "doc: " + err.Error()
@@ -489,11 +608,19 @@ func runCase(c Case) (out Out) {
 		}
 		m, ok := x.(map[string]any)
 		if !ok {
-			out.Fail = "key mode needs an object document"
+			out.Fail = c.Mode + " mode needs an object document"
 			return
 		}
-		call = func() error { return mapping.UnmarshalKey(m, target.Interface()) }
-	case "form", "path", "header":
+		switch c.Mode {
+		case "key":
+			call = func() error { return mapping.UnmarshalKey(m, target.Interface()) }
+		case "okey":
+			u := mapping.NewUnmarshaler("key", mapping.WithOpaqueKeys())
+			call = func() error { return u.Unmarshal(m, target.Interface()) }
+		case "jsonmap":
+			call = func() error { return mapping.UnmarshalJsonMap(m, target.Interface()) }
+		}
+	case "form", "path", "header", "dform":
 		sm, _, err := stringMap(c.Doc)
 		if err != nil {
 			out.Fail = "doc: " + err.Error()
@@ -502,12 +629,17 @@ func runCase(c Case) (out Out) {
 		m := map[string]any{}
 		var u *mapping.Unmarshaler
 		switch c.Mode {
-		case "form":
+		case "form", "dform":
 			// as rest/httpx: every parameter is a []string
 			for k, v := range sm {
 				m[k] = v
 			}
-			u = mapping.NewUnmarshaler("form", mapping.WithStringValues(), mapping.WithOpaqueKeys(), mapping.WithFromArray())
+			if c.Mode == "form" {
+				u = mapping.NewUnmarshaler("form", mapping.WithStringValues(), mapping.WithOpaqueKeys(), mapping.WithFromArray())
+			} else {
+				// the same without opaque keys: dotted keys are paths
+				u = mapping.NewUnmarshaler("form", mapping.WithStringValues(), mapping.WithFromArray())
+			}
 		case "path":
 			for k, v := range sm {
 				if len(v) != 1 {
@@ -531,7 +663,7 @@ func runCase(c Case) (out Out) {
 				mapping.WithCanonicalKeyFunc(textproto.CanonicalMIMEHeaderKey))
 		}
 		call = func() error { return u.Unmarshal(m, target.Interface()) }
-	case "httpx-json", "httpx-form", "httpx-path", "httpx-header":
+	case "httpx-json", "httpx-form", "httpx-path", "httpx-header", "parse":
 		var r *http.Request
 		switch c.Mode {
 		case "httpx-json":
@@ -547,23 +679,18 @@ func runCase(c Case) (out Out) {
 				body = append(padded, body[1:]...)
 			}
 			r = httptest.NewRequest(http.MethodPost, "/x", bytes.NewReader(body))
-			r.Header.Set("Content-Type", "application/json")
+			ct := "application/json"
+			if c.Ctype != nil {
+				ct = *c.Ctype
+			}
+			if ct != "" {
+				r.Header.Set("Content-Type", ct)
+			}
 		case "httpx-form":
-			sm, order, err := stringMap(c.Doc)
+			q, err := queryOf(c.Doc, c.Repeat)
 			if err != nil {
 				out.Fail = "doc: " + err.Error()
 				return
-			}
-			q := url.Values{}
-			for _, k := range order {
-				for _, v := range sm[k] {
-					q.Add(k, v)
-				}
-			}
-			if c.Repeat != nil {
-				for i := 0; i < c.Repeat.N; i++ {
-					q.Add(c.Repeat.Key, c.Repeat.Val)
-				}
 			}
 			r = httptest.NewRequest(http.MethodGet, "/x?"+q.Encode(), nil)
 		case "httpx-path":
@@ -578,16 +705,56 @@ func runCase(c Case) (out Out) {
 			}
 			r = pathvar.WithVars(httptest.NewRequest(http.MethodGet, "/x", nil), vars)
 		case "httpx-header":
-			sm, order, err := stringMap(c.Doc)
-			if err != nil {
+			r = httptest.NewRequest(http.MethodGet, "/x", nil)
+			if err := addHeaders(r, c.Doc); err != nil {
 				out.Fail = "doc: " + err.Error()
 				return
 			}
-			r = httptest.NewRequest(http.MethodGet, "/x", nil)
-			for _, k := range order {
-				for _, v := range sm[k] {
-					r.Header.Add(k, v)
+		case "parse":
+			if c.Req == nil {
+				out.Fail = "parse mode needs req"
+				return
+			}
+			q := url.Values{}
+			if c.Req.Form != nil {
+				if q, err = queryOf(c.Req.Form, nil); err != nil {
+					out.Fail = "form: " + err.Error()
+					return
 				}
+			}
+			switch {
+			case c.Req.PostForm:
+				r = httptest.NewRequest(http.MethodPost, "/x", strings.NewReader(q.Encode()))
+				r.Header.Set("Content-Type", "application/x-www-form-urlencoded")
+			case c.Req.Body != nil:
+				r = httptest.NewRequest(http.MethodPost, "/x?"+q.Encode(), strings.NewReader(*c.Req.Body))
+				ct := "application/json"
+				if c.Req.Ctype != nil {
+					ct = *c.Req.Ctype
+				}
+				if ct != "" {
+					r.Header.Set("Content-Type", ct)
+				}
+			default:
+				r = httptest.NewRequest(http.MethodGet, "/x?"+q.Encode(), nil)
+			}
+			if c.Req.Header != nil {
+				if err := addHeaders(r, c.Req.Header); err != nil {
+					out.Fail = "header: " + err.Error()
+					return
+				}
+			}
+			if c.Req.Path != nil {
+				sm, _, err := stringMap(c.Req.Path)
+				if err != nil {
+					out.Fail = "path: " + err.Error()
+					return
+				}
+				vars := map[string]string{}
+				for k, v := range sm {
+					vars[k] = v[0]
+				}
+				r = pathvar.WithVars(r, vars)
 			}
 		}
 		call = func() error { return httpx.Parse(r, target.Interface()) }
@@ -605,6 +772,12 @@ func runCase(c Case) (out Out) {
 		}
 	}
 
+	var h *hook
+	if c.Validator != nil {
+		h = &hook{accept: *c.Validator == "accept"}
+		httpx.SetValidator(h)
+		defer httpx.SetValidator(nil)
+	}
 	func() {
 		defer func() {
 			if p := recover(); p != nil {
@@ -620,6 +793,13 @@ func runCase(c Case) (out Out) {
 		out.Verdict = "ok"
 		out.Val = dump(target.Elem())
 	}()
+	if h != nil {
+		out.Called = h.called
+		if h.called && out.Verdict == "ok" && !reflect.DeepEqual(h.seen, out.Val) {
+			out.Verdict = "error"
+			out.Err = "the validator saw a target different from the one returned"
+		}
+	}
 	if len(out.Err) > 300 {
 		out.Err = out.Err[:300]
 	}
